@@ -244,8 +244,8 @@ def witness_search(spec, kind, direction, case, build, var, acc, name, first=Non
         m, concrete = item if isinstance(item, tuple) else (item, False)
         try:
             P, x, c = model_inputs(spec, m, var)
-            if concrete:
-                P = [np.asarray(p) for p in spec.P_ex]
+            if concrete or "concreteP" in spec.tags:
+                P = [np.asarray(p) for p in spec.P_ex]     # the parameters are not variables of this query: replay on the instance's own
             tried += 1
             ok, msg = REPLAYS[kind](spec.key, direction, [np.asarray(p).tolist() for p in P], np.asarray(x).tolist(), None if c is None else np.asarray(c).tolist())
         except Exception as e:  # noqa
@@ -473,7 +473,8 @@ def ob_logdet_fwd(spec_name, case_name):
         cs = {c.name: c for c in spec.x_cases()}[case_.name]
         assume = inv + cs.assume
         Psym = spec.P_sym
-        if concrete:
+        if concrete or "concreteP" in spec.tags:
+            # instance parameters (tag concreteP: the obligation quantifies over x and the condition only, stated in the spec's note)
             Psym = [jx.oarr(np.asarray(p)) for p in spec.P_ex]
             assume = list(cs.assume)
         set_path(assume, ctx.facts)
